@@ -75,18 +75,20 @@ fn order_of(m: &Value) -> Order<ExchangeIndex, InstrumentIndex, OrderState<Asset
     }
 }
 
-/// Exchange timestamps of this driver carry microseconds (as venues state them): spec time t is
-/// 2020-01-01 + t s + (137 + 3 t) us.  The projection accepts only exactly such instants: a held
-/// timestamp that was rounded, truncated or shifted is not a timestamp any message delivered.
+/// Exchange timestamps of this driver carry microseconds (as venues state them) and lie CLOSE together: spec
+/// time t is 2020-01-01 00:00:01 + (400 t + 137) us, so consecutive spec times are 400 us apart - less than a
+/// millisecond - and times three apart differ by more than one. The projection accepts only exactly such
+/// instants: a held timestamp that was rounded, truncated or shifted is not a timestamp any message delivered,
+/// and an order decided on whole milliseconds (or seconds) is not the order of the timestamps.
 fn time(t: i64) -> chrono::DateTime<chrono::Utc> {
-    vh::util::time(t) + chrono::Duration::microseconds(137 + 3 * t)
+    vh::util::time(1) + chrono::Duration::microseconds(400 * t + 137)
 }
 fn untime_exact(d: chrono::DateTime<chrono::Utc>) -> Value {
-    let t = vh::util::untime(d);
+    let t = untime(d);
     if d == time(t) { json!(t) } else { json!(format!("not a delivered instant: {d:?}")) }
 }
 fn untime(d: chrono::DateTime<chrono::Utc>) -> i64 {
-    vh::util::untime(d)
+    (d - vh::util::time(1)).num_microseconds().unwrap_or(i64::MIN / 2).div_euclid(400)
 }
 
 /// arrival clock: `time_received` follows delivery order (later than any exchange time), as on a live feed
